@@ -10,6 +10,7 @@ use crate::util::{Opts, Rng, QA};
 use crate::world::*;
 use mls_rs::client_builder::MlsConfig;
 use mls_rs::group::{CommitEffect, ReceivedMessage};
+use mls_rs_core::group::GroupStateStorage;
 use mls_rs::{Group, MlsMessage};
 use std::collections::{BTreeMap, BTreeSet};
 
@@ -78,6 +79,18 @@ fn scenario<C: MlsConfig>(rng: &mut Rng, mk: Mk<C>, out: &mut Out, qa_mem: &mut 
     qa_mem.put(&format!("repo.new mem {ret}"), "ok");
     qa_sql.put(&format!("repo.new sql {ret}"), "ok");
     let mut twin: Group<C> = w.group(1).clone();
+    // each subject also runs a second, single-member group on the SAME storage, advanced and written in lockstep, so that both
+    // groups hold prior epochs with the same epoch ids; whatever the subject writes for the main group must leave the stored
+    // records of the side group untouched
+    let mut side: BTreeMap<usize, Group<C>> = BTreeMap::new();
+    let mut side_stored: BTreeMap<usize, BTreeMap<u64, Vec<u8>>> = BTreeMap::new();
+    for i in [1usize, 2] {
+        if let Ok(mut g) = w.members[i].client.create_group(Default::default(), Default::default(), None) {
+            let _ = g.commit(vec![]).and_then(|_| g.apply_pending_commit());
+            let _ = g.write_to_storage();
+            side.insert(i, g);
+        }
+    }
     // written[i] = components of subject i at its last successful write
     let mut written: BTreeMap<usize, Vec<(String, Vec<u8>)>> = BTreeMap::new();
     // unused late messages per epoch from P (and from Q for the sender-leaf cases)
@@ -184,6 +197,25 @@ fn scenario<C: MlsConfig>(rng: &mut Rng, mk: Mk<C>, out: &mut Out, qa_mem: &mut 
                 out.cover.insert(format!("q:{q_state}"));
             }
         }
+        // the side groups advance and are written; their stored prior epochs are recorded
+        for i in [1usize, 2] {
+            if let Some(g) = side.get_mut(&i) {
+                let ok = g.commit(vec![]).and_then(|_| g.apply_pending_commit()).is_ok() && g.write_to_storage().is_ok();
+                if !ok {
+                    out.fails.push(("C06".into(), format!("subject {i}: side group cannot advance / be written")));
+                    continue;
+                }
+                let gid = g.group_id().to_vec();
+                let cur = g.current_epoch();
+                let mut m = BTreeMap::new();
+                for e in 0..cur {
+                    if let Ok(Some(rec)) = w.members[i].h.store.epoch(&gid, e) {
+                        m.insert(e, rec.to_vec());
+                    }
+                }
+                side_stored.insert(i, m);
+            }
+        }
         // ---- persistence events on the two subjects -----------------------------------------------------------------
         for (i, tag) in [(1usize, "mem"), (2usize, "sql")] {
             let qa: &mut QA = if i == 1 { &mut *qa_mem } else { &mut *qa_sql };
@@ -249,6 +281,20 @@ fn scenario<C: MlsConfig>(rng: &mut Rng, mk: Mk<C>, out: &mut Out, qa_mem: &mut 
                     }
                     Err(e) => out.fails.push(("C06".into(), format!("{tag}: cannot load the written group: {}", err_class(&e)))),
                 }
+            }
+        }
+        // the main group's writes left the other group's stored prior epochs alone
+        for (i, tag) in [(1usize, "mem"), (2usize, "sql")] {
+            if let (Some(g), Some(exp)) = (side.get(&i), side_stored.get(&i)) {
+                let gid = g.group_id().to_vec();
+                for (e, rec) in exp {
+                    let now_rec = w.members[i].h.store.epoch(&gid, *e).ok().flatten().map(|z| z.to_vec());
+                    if now_rec.as_ref() != Some(rec) {
+                        out.fails.push(("C06".into(), format!("{tag}: writing the main group changed the stored prior epoch {e} of another group in the same storage")));
+                        break;
+                    }
+                }
+                out.cover.insert(format!("side-group:{tag}:stored={}", exp.len().min(5)));
             }
         }
         // both back ends expose the same stored history when written at the same points -- compared through the model rows;
